@@ -4,7 +4,8 @@
     silent truncation for ANY literal / argument / parameter / template size (the "300-element array literal panics" clause);
 (a'') RegisterAllocator::{alloc, free, reserve_range, save, restore} never panic from ANY allocator state (props/c10.py kernel (a));
 (a') compile_enum_declaration never panics for any numeric literal initialiser (props/c04.py kernel);
-(b) lexer punctuation/whitespace kernel - see props/lexk.py (thorough tier, when present).
+(b) lexer position kernel - see props/lexk.py;
+(c) Lexer::checkpoint / restore round trip (what every speculative parse relies on to rewind) - props/lexk.py check_checkpoint.
 The parser (recursion depth, speculative re-parsing cost) is outside the claim.
 """
 import json
@@ -62,6 +63,7 @@ def run(rep):
     try:
         from . import lexk
         lexk.check(rep, cross, 'C05')
+        lexk.check_checkpoint(rep, cross, 'C05')
     except ImportError:
         pass
     rep.cross = driver.cross_check(cross, 300, 'ALL', rep.tier, rep.seed)
